@@ -367,6 +367,13 @@ func (app *App) txDeliverer() txDeliverer {
 
 		ok, response := handler.ProcessDeliver(txCtx, tx.RawTx)
 		feeOk, feeResponse := handler.ProcessFee(txCtx, *tx, gas, storage.Gas(len(msg.Tx)), storage.Gas(response.GasUsed))
+		// the block gas ran out while the transaction was executing: store accesses were refused
+		// from some point on (a refused read looks like a missing record to code that does not
+		// check), so whatever the handler made of it is not the effect of the transaction
+		if ok && feeOk && app.Context.deliver.GetCalculator().IsEnough() {
+			feeOk = false
+			feeResponse = action.Response{Log: "out of block gas", GasWanted: feeResponse.GasWanted, GasUsed: feeResponse.GasUsed}
+		}
 
 		logString := marshalLog(ok, response, feeResponse)
 
